@@ -246,6 +246,22 @@ def _elim_returns(stmts, ret):
           body=body or [ast.Pass()], handlers=hs, orelse=ob,
           finalbody=st.finalbody), st))
       return out, allt
+    if isinstance(st, ast.Try) and rest and not st.finalbody and not any(
+        _contains_return(x) for x in st.body):
+      # handlers return, the protected body does not: what follows the try
+      # moves into its else clause (runs only when no handler ran, and is not
+      # protected by the handlers - as before)
+      hs = []
+      handlers_t = True
+      for h in st.handlers:
+        hb, ht = _elim_returns(h.body, ret)
+        handlers_t = handlers_t and ht
+        hs.append(ast.copy_location(ast.ExceptHandler(
+            type=h.type, name=h.name, body=hb or [ast.Pass()]), h))
+      ob, ot = _elim_returns(list(st.orelse) + rest, ret)
+      out.append(ast.copy_location(ast.Try(
+          body=st.body, handlers=hs, orelse=ob, finalbody=[]), st))
+      return out, handlers_t and ot
     if isinstance(st, (ast.For, ast.While)) and not st.orelse and not any(
         isinstance(x, ast.Break) for x in _walk_same_loop(st.body)):
       # `for ...: if c: return X` + rest  ->  `for ...: if c: ret = X; break`
